@@ -108,43 +108,49 @@ theorem psum_abs_le {a y : ℝ} (ha0 : 0 ≤ a) (ha1 : a ≤ 1) (hy : |y| ≤ 1)
 noncomputable def powApproxEps (q : ℝ) (N : ℕ) (D : ℝ) : ℝ :=
   N * D + (1 / 10 ^ 8 + D) * ((N : ℝ) / (N + 1)) * (q / (1 - q)) + D / (1 - q)
 
+/-- the same budget with an arbitrary remainder factor `κ` (`remainder after k terms ≤ |term_{k+1}|·κ`):
+`κ = 1/(1−q)` geometric (any sign of `base − 1`), `κ = 1` alternating (`base ≥ 1`). -/
+noncomputable def powApproxEpsK (q : ℝ) (N : ℕ) (D κ : ℝ) : ℝ :=
+  N * D + (1 / 10 ^ 8 + D) * ((N : ℝ) / (N + 1)) * (q * κ) + D * κ
+
+theorem powApproxEps_eq_K (q : ℝ) (N : ℕ) (D : ℝ) : powApproxEps q N D = powApproxEpsK q N D (1 / (1 - q)) := by
+  unfold powApproxEps powApproxEpsK; ring
+
 theorem sg_xor (n nx nc : Bool) :
     sg (if nc then !(if nx then !n else n) else (if nx then !n else n)) = sg n * sg nx * sg nc := by
   cases n <;> cases nx <;> cases nc <;> simp [sg]
 
-/-- exit through `term = 0`: the next term is below `D`, the remainder below `D/(1 − q)`. -/
-theorem powApprox_exit_zero {ds S F P' D q : ℝ} {k N : ℕ} (hq0 : 0 ≤ q) (hq1 : q < 1) (hD0 : 0 ≤ D) (hk : k ≤ N)
-    (h1 : |ds - S| ≤ k * D) (h2 : |P'| ≤ D) (h3 : |F - S| ≤ |P'| / (1 - q)) : |ds - F| ≤ powApproxEps q N D := by
-  have hd : 0 < 1 - q := by linarith
+/-- exit through `term = 0`: the next term is below `D`, the remainder below `D·κ`. -/
+theorem powApprox_exit_zero {ds S F P' D q κ : ℝ} {k N : ℕ} (hq0 : 0 ≤ q) (hκ : 0 ≤ κ) (hD0 : 0 ≤ D) (hk : k ≤ N)
+    (h1 : |ds - S| ≤ k * D) (h2 : |P'| ≤ D) (h3 : |F - S| ≤ |P'| * κ) : |ds - F| ≤ powApproxEpsK q N D κ := by
   have hkr : (k : ℝ) ≤ N := by exact_mod_cast hk
-  have h4 : |P'| / (1 - q) ≤ D / (1 - q) := div_le_div_of_nonneg_right h2 hd.le
+  have h4 : |P'| * κ ≤ D * κ := mul_le_mul_of_nonneg_right h2 hκ
   have h5 := abs_add_le (ds - S) (S - F)
   rw [sub_add_sub_cancel, abs_sub_comm S] at h5
   have h6 : (k : ℝ) * D ≤ N * D := mul_le_mul_of_nonneg_right hkr hD0
-  have h7 : 0 ≤ (1 / 10 ^ 8 + D) * ((N : ℝ) / (N + 1)) * (q / (1 - q)) := by positivity
-  unfold powApproxEps
+  have h7 : 0 ≤ (1 / 10 ^ 8 + D) * ((N : ℝ) / (N + 1)) * (q * κ) := by positivity
+  unfold powApproxEpsK
   linarith only [h1, h3, h4, h5, h6, h7]
 
 /-- exit through the stopping rule `term < 10^-8` after `k ≥ 1` iterations. -/
-theorem powApprox_exit_prec {ds S F P D q : ℝ} {k N : ℕ} (hq0 : 0 ≤ q) (hq1 : q < 1) (hD0 : 0 ≤ D) (hk1 : 1 ≤ k)
+theorem powApprox_exit_prec {ds S F P D q κ : ℝ} {k N : ℕ} (hq0 : 0 ≤ q) (hκ : 0 ≤ κ) (hD0 : 0 ≤ D) (hk1 : 1 ≤ k)
     (hk : k ≤ N) (h1 : |ds - S| ≤ k * D) (h2 : |P| ≤ 1 / 10 ^ 8 + D)
-    (h3 : |F - S| ≤ |P| * ((k : ℝ) / (k + 1)) * (q / (1 - q))) : |ds - F| ≤ powApproxEps q N D := by
-  have hd : 0 < 1 - q := by linarith
+    (h3 : |F - S| ≤ |P| * ((k : ℝ) / (k + 1)) * (q * κ)) : |ds - F| ≤ powApproxEpsK q N D κ := by
   have hkr : (k : ℝ) ≤ N := by exact_mod_cast hk
   have hk0 : (0 : ℝ) ≤ k := by positivity
-  have hfrac0 : 0 ≤ q / (1 - q) := by positivity
+  have hfrac0 : 0 ≤ q * κ := by positivity
   have hfr : (k : ℝ) / (k + 1) ≤ (N : ℝ) / (N + 1) := by
     rw [div_le_div_iff₀ (by positivity) (by positivity)]; nlinarith only [hkr, hk0]
   have hfr0 : 0 ≤ (k : ℝ) / (k + 1) := by positivity
-  have h4 : |P| * ((k : ℝ) / (k + 1)) * (q / (1 - q)) ≤
-      (1 / 10 ^ 8 + D) * ((N : ℝ) / (N + 1)) * (q / (1 - q)) := by
+  have h4 : |P| * ((k : ℝ) / (k + 1)) * (q * κ) ≤
+      (1 / 10 ^ 8 + D) * ((N : ℝ) / (N + 1)) * (q * κ) := by
     apply mul_le_mul_of_nonneg_right _ hfrac0
     exact mul_le_mul h2 hfr hfr0 (by positivity)
   have h5 := abs_add_le (ds - S) (S - F)
   rw [sub_add_sub_cancel, abs_sub_comm S] at h5
   have h6 : (k : ℝ) * D ≤ N * D := mul_le_mul_of_nonneg_right hkr hD0
-  have h7 : 0 ≤ D / (1 - q) := by positivity
-  unfold powApproxEps
+  have h7 : 0 ≤ D * κ := by positivity
+  unfold powApproxEpsK
   linarith only [h1, h3, h4, h5, h6, h7]
 
 theorem abs_pm_le_big {a b : ℝ} (ha : |a| ≤ 10 ^ 7) (hb : |b| ≤ 2) : |a + b| ≤ 10 ^ 40 ∧ |a - b| ≤ 10 ^ 40 := by
@@ -176,15 +182,17 @@ theorem powApproxLoop_stop {x exp p : Int} {xneg : Bool} {f : Nat} {i term sum b
     powApproxLoop x xneg exp p (f + 1) i term sum neg bigK = some sum := by
   rw [powApproxLoop, if_neg hlt]
 
-theorem powApproxLoop_spec {xr er : Int} {xneg : Bool} {q D : ℝ} {N : ℕ}
+theorem powApproxLoop_spec {xr er : Int} {xneg : Bool} {q D κ : ℝ} {N : ℕ}
     (hx0 : 0 ≤ xr) (hxq : dv xr ≤ q) (hq1 : q < 1) (he0 : 0 ≤ er) (he1 : er ≤ P18)
     (hD : q * D + (2 * mulErr + quoErr) ≤ D) (hD1 : D ≤ 1 / 10 ^ 10)
-    (hN : q ^ N + D < 1 / 10 ^ 8) (hNL : N + 1 < Osmomath.powIterationLimit) :
+    (hN : q ^ N + D < 1 / 10 ^ 8) (hNL : N + 1 < Osmomath.powIterationLimit) (hκ : 0 ≤ κ)
+    (htail : ∀ k : ℕ, |(1 + sg xneg * dv xr) ^ dv er - psum (dv er) (sg xneg * dv xr) k| ≤
+      |pterm (dv er) (sg xneg * dv xr) (k + 1)| * κ) :
     ∀ (fuel k : ℕ) (i term sum bigK : Int) (neg : Bool), N + 2 ≤ fuel + k → k ≤ N → i = k + 1 →
       bigK = k * P18 → 0 ≤ term → |sg neg * dv term - pterm (dv er) (sg xneg * dv xr) k| ≤ D →
       |dv sum - psum (dv er) (sg xneg * dv xr) k| ≤ k * D →
       ∃ r, powApproxLoop xr xneg er Osmomath.powPrecision fuel i term sum neg bigK = some r ∧
-        |dv r - (1 + sg xneg * dv xr) ^ dv er| ≤ powApproxEps q N D := by
+        |dv r - (1 + sg xneg * dv xr) ^ dv er| ≤ powApproxEpsK q N D κ := by
   have hX0 := dv_nonneg hx0
   have hq0 : 0 ≤ q := le_trans hX0 hxq
   have ha0 : 0 ≤ dv er := dv_nonneg he0
@@ -271,7 +279,7 @@ theorem powApproxLoop_spec {xr er : Int} {xneg : Bool} {q D : ℝ} {N : ℕ}
       · rw [if_pos hz]
         refine ⟨sum, rfl, ?_⟩
         rw [hz, dv_zero, mul_zero, zero_sub, abs_neg] at hstep'
-        exact powApprox_exit_zero hq0 hq1 hD0.le hk hsum hstep' (pow_series_tail ha0 ha1 hy hq1 k)
+        exact powApprox_exit_zero hq0 hκ hD0.le hk hsum hstep' (htail k)
       · rw [if_neg hz]
         have hsgn := sg_xor neg xneg cn
         generalize (if cn then !(if xneg then !neg else neg) else (if xneg then !neg else neg)) = neg2 at hsgn ⊢
@@ -320,8 +328,14 @@ theorem powApproxLoop_spec {xr er : Int} {xneg : Bool} {q D : ℝ} {N : ℕ}
         rw [this, abs_one] at hTP1
         have : (1 : ℝ) / 10 ^ 10 < 1 - 1 / 10 ^ 8 := by norm_num
         linarith only [this, hTP1, hltR, hD1]
-      exact powApprox_exit_prec hq0 hq1 hD0.le hk1 hk hsum (by linarith only [hTP1, hltR])
-        (pow_series_tail_last ha0 ha1 hy hq1 hk1)
+      have hnext : |pterm a y (k + 1)| ≤ |pterm a y k| * ((k : ℝ) / (k + 1)) * q := by
+        have h0 : 0 ≤ |pterm a y k| * ((k : ℝ) / (k + 1)) := by positivity
+        exact (abs_pterm_succ_le' ha0 ha1 hk1).trans (mul_le_mul_of_nonneg_left hy h0)
+      have htl : |(1 + y) ^ a - psum a y k| ≤ |pterm a y k| * ((k : ℝ) / (k + 1)) * (q * κ) := by
+        calc _ ≤ |pterm a y (k + 1)| * κ := htail k
+          _ ≤ (|pterm a y k| * ((k : ℝ) / (k + 1)) * q) * κ := mul_le_mul_of_nonneg_right hnext hκ
+          _ = _ := by ring
+      exact powApprox_exit_prec hq0 hκ hD0.le hk1 hk hsum (by linarith only [hTP1, hltR]) htl
 
 theorem powApprox_eq {base exp p x : Int} {xn : Bool} (hb : 0 < base) (he : exp ≠ 0) (hne : exp ≠ Osmomath.one_half)
     (hx : absDiffSign base P18 = some (x, xn)) :
@@ -330,13 +344,15 @@ theorem powApprox_eq {base exp p x : Int} {xn : Bool} (hb : 0 < base) (he : exp 
   rw [if_neg (by omega), if_neg he, if_neg hne, hx]
   rfl
 
-/-- `PowApprox` on an exponent `0 < a ≤ 1`, `a ≠ 1/2`, and a base within `q < 1` of 1: it RETURNS (no panic, no iteration
-limit) a value within `powApproxEps q N D` of the real power. -/
-theorem powApprox_series_spec {base exp : Int} {q D : ℝ} {N : ℕ} (hb : 0 < base) (hbq : |dv base - 1| ≤ q)
+/-- `PowApprox` on an exponent `0 < a ≤ 1`, `a ≠ 1/2`, and a base within `q < 1` of 1, GIVEN a remainder factor `κ` of
+the binomial series at this base: it RETURNS (no panic, no iteration limit) within `powApproxEpsK q N D κ`. -/
+theorem powApprox_series_spec_K {base exp : Int} {q D κ : ℝ} {N : ℕ} (hb : 0 < base) (hbq : |dv base - 1| ≤ q)
     (hq1 : q < 1) (he0 : 0 < exp) (he1 : exp ≤ P18) (hne : exp ≠ Osmomath.one_half)
     (hD : q * D + (2 * mulErr + quoErr) ≤ D) (hD1 : D ≤ 1 / 10 ^ 10)
-    (hN : q ^ N + D < 1 / 10 ^ 8) (hNL : N + 1 < Osmomath.powIterationLimit) :
-    ∃ r, powApprox base exp Osmomath.powPrecision = some r ∧ |dv r - dv base ^ dv exp| ≤ powApproxEps q N D := by
+    (hN : q ^ N + D < 1 / 10 ^ 8) (hNL : N + 1 < Osmomath.powIterationLimit) (hκ : 0 ≤ κ)
+    (htail : ∀ k : ℕ, |(1 + (dv base - 1)) ^ dv exp - psum (dv exp) (dv base - 1) k| ≤
+      |pterm (dv exp) (dv base - 1) (k + 1)| * κ) :
+    ∃ r, powApprox base exp Osmomath.powPrecision = some r ∧ |dv r - dv base ^ dv exp| ≤ powApproxEpsK q N D κ := by
   have hq0 : 0 ≤ q := le_trans (abs_nonneg _) hbq
   obtain ⟨x, xn, hx, hx0, hxs⟩ := absDiffSign_spec (a := base) (b := P18) (by
     rw [dv_P18]; exact hbq.trans (by linarith only [hq1, show (1 : ℝ) ≤ 10 ^ 40 by norm_num]))
@@ -347,7 +363,8 @@ theorem powApprox_series_spec {base exp : Int} {q D : ℝ} {N : ℕ} (hb : 0 < b
   have hmq : 0 < 2 * mulErr + quoErr := by have := mulErr_pos; have := quoErr_pos; linarith
   have hD0 : 0 < D := by nlinarith only [hD, hmq, hq1]
   rw [powApprox_eq hb (by omega) hne hx]
-  obtain ⟨r, hr, hacc⟩ := powApproxLoop_spec (xneg := xn) hx0 hxq hq1 he0.le he1 hD hD1 hN hNL
+  obtain ⟨r, hr, hacc⟩ := powApproxLoop_spec (xneg := xn) hx0 hxq hq1 he0.le he1 hD hD1 hN hNL hκ
+    (by rw [hxs]; exact htail)
     (Osmomath.powIterationLimit + 2) 0 1 P18 P18 0 false (by omega) (by omega) (by norm_num) (by norm_num)
     P18_pos.le (by
       rw [sg_false, one_mul, dv_P18]
@@ -358,6 +375,36 @@ theorem powApprox_series_spec {base exp : Int} {q D : ℝ} {N : ℕ} (hb : 0 < b
   rw [hxs] at hacc
   have e : 1 + (dv base - 1) = dv base := by ring
   rwa [e] at hacc
+
+/-- … with the GEOMETRIC remainder (`κ = 1/(1−q)`, any sign of `base − 1`): within `powApproxEps q N D`. -/
+theorem powApprox_series_spec {base exp : Int} {q D : ℝ} {N : ℕ} (hb : 0 < base) (hbq : |dv base - 1| ≤ q)
+    (hq1 : q < 1) (he0 : 0 < exp) (he1 : exp ≤ P18) (hne : exp ≠ Osmomath.one_half)
+    (hD : q * D + (2 * mulErr + quoErr) ≤ D) (hD1 : D ≤ 1 / 10 ^ 10)
+    (hN : q ^ N + D < 1 / 10 ^ 8) (hNL : N + 1 < Osmomath.powIterationLimit) :
+    ∃ r, powApprox base exp Osmomath.powPrecision = some r ∧ |dv r - dv base ^ dv exp| ≤ powApproxEps q N D := by
+  have ha0 : 0 ≤ dv exp := dv_nonneg he0.le
+  have ha1 : dv exp ≤ 1 := by have := dv_le he1; rwa [dv_P18] at this
+  rw [powApproxEps_eq_K]
+  refine powApprox_series_spec_K hb hbq hq1 he0 he1 hne hD hD1 hN hNL
+    (by have : 0 < 1 - q := by linarith only [hq1]
+        positivity) (fun k => ?_)
+  have := pow_series_tail ha0 ha1 hbq hq1 k
+  rwa [div_eq_mul_one_div] at this
+
+/-- … with the ALTERNATING remainder (`κ = 1`) for bases `≥ 1`: within `powApproxEpsK q N D 1`. -/
+theorem powApprox_series_spec_alt {base exp : Int} {q D : ℝ} {N : ℕ} (hb : P18 ≤ base) (hbq : dv base - 1 ≤ q)
+    (hq1 : q < 1) (he0 : 0 < exp) (he1 : exp ≤ P18) (hne : exp ≠ Osmomath.one_half)
+    (hD : q * D + (2 * mulErr + quoErr) ≤ D) (hD1 : D ≤ 1 / 10 ^ 10)
+    (hN : q ^ N + D < 1 / 10 ^ 8) (hNL : N + 1 < Osmomath.powIterationLimit) :
+    ∃ r, powApprox base exp Osmomath.powPrecision = some r ∧ |dv r - dv base ^ dv exp| ≤ powApproxEpsK q N D 1 := by
+  have ha0 : 0 ≤ dv exp := dv_nonneg he0.le
+  have ha1 : dv exp ≤ 1 := by have := dv_le he1; rwa [dv_P18] at this
+  have hy0 : 0 ≤ dv base - 1 := by have := dv_le hb; rw [dv_P18] at this; linarith only [this]
+  have := P18_pos
+  refine powApprox_series_spec_K (by omega) (by rw [abs_of_nonneg hy0]; exact hbq) hq1 he0 he1 hne hD hD1 hN hNL
+    (by norm_num) (fun k => ?_)
+  rw [mul_one]
+  exact pow_series_tail_alt ha0 ha1 hy0 (lt_of_le_of_lt hbq hq1) k
 
 /-- the instance for bases in `[0.5, 1.5]`: at most 27 iterations, error below `0.9643·10^-8`. -/
 theorem powApproxEps_half : powApproxEps (1 / 2) 27 (4 / 10 ^ 18) ≤ 9643 / 10 ^ 12 := by
